@@ -207,12 +207,12 @@ func (x *Exec) execClose(st *State, fr *Frame, ch Val, pos token.Pos) {
 }
 
 func (x *Exec) execCloseV(st *State, fr *Frame, ch Val, pos token.Pos, chV ssa.Value) {
-	x.hookEvent(st, fr, "close", "", []Val{ch}, nil, pos)
+	x.hookEvent(st, fr, "close", x.chanName(chV), []Val{ch}, nil, pos)
 	closed := x.chanClosed(st, ch.T(), chV)
 	x.safe(st, "chan-close", And(Ne(ch.T(), IntLit(0)), Not(closed)), pos, "close of nil or closed channel")
 	cl := st.heapGet("ChClosed", ArrSort(SInt, SBool))
 	st.heapSet("ChClosed", Store(cl, ch.T(), True))
-	x.hookAfter(st, fr, "close", "", []Val{ch}, Val{}, pos)
+	x.hookAfter(st, fr, "close", x.chanName(chV), []Val{ch}, Val{}, pos)
 }
 
 func (x *Exec) chanName(v ssa.Value) string {
